@@ -19,16 +19,36 @@ def make_engine(kind, **kw):
         seed = int(kind.split(":")[1])
         rng = random.Random(seed)
 
-        # the random choice-point order documented in docs/source/engine.rst
+        # the random choice-point order documented in docs/source/engine.rst (verbatim, seeded)
         class MessageOrderRandom(MessageAnyOrder):
+            def __init__(self, engine):
+                MessageAnyOrder.__init__(self, engine)
+                self.messages_rc = []
+                self.messages_e = []
+
             def append(self, message):
-                self.messages.append(message)
+                if message[0] == "e":
+                    self.messages_e.append(message)
+                else:
+                    self.messages_rc.append(message)
 
             def pop(self):
-                i = rng.randint(0, len(self.messages) - 1)
-                res = self.messages[i]
-                self.messages = self.messages[:i] + self.messages[i + 1:]
-                return res
+                if self.messages_rc:
+                    return self.messages_rc.pop(-1)
+                i = rng.randint(0, len(self.messages_e) - 1)
+                return self.messages_e.pop(i)
+
+            def __nonzero__(self):
+                return bool(self.messages_e) or bool(self.messages_rc)
+
+            def __bool__(self):
+                return bool(self.messages_e) or bool(self.messages_rc)
+
+            def __len__(self):
+                return len(self.messages_e) + len(self.messages_rc)
+
+            def __iter__(self):
+                return iter(self.messages_e + self.messages_rc)
 
         class RandomOrderEngine(StackBasedEngine):
             def __init__(self, **k):
